@@ -399,7 +399,7 @@ let rec dump_pv (b : Buffer.t) (v : pv) : unit =
   | PBArr s -> tok ("a:" ^ hex_of_blist s)
   | PTuple l -> tok "t("; List.iter (dump_pv b) l; tok ")"
   | PList l -> tok "l["; List.iter (dump_pv b) l; tok "]"
-  | PDict es -> tok "d{"; List.iter (fun (k, x) -> dump_pv b k; dump_pv b x) es; tok "}"
+  | PDict tr -> tok "d{"; List.iter (fun (k, x) -> dump_pv b k; dump_pv b x) (pd_merge tr); tok "}"
   | PGlobal (m, n) -> tok ("g:" ^ hex_of_blist m ^ ":" ^ hex_of_blist n)
   | PCall (f, args) -> tok "C("; dump_pv b f; tok "t("; List.iter (dump_pv b) args; tok ")"; tok ")"
   | PPers p -> tok "R("; dump_pv b p; tok ")"
